@@ -61,7 +61,7 @@ theorem parse_op_block {F : Fl} (e body : Ex) (op o c : PToken) (ws1 ws2 wsA wsB
   have hn4 := numbered_append wsA _ _ hn3.2
   have hnumB := numbered_prefix body.toks _ _ hn4
   -- e
-  obtain ⟨st1, E, re, cb, hloop, hinv, hgs, hcg, _, _, _, href⟩ :=
+  obtain ⟨st1, E, re, cb, hloop, hinv, hgs, hcg, _, _, _, hcnt, href⟩ :=
     (ex_ok e false he).1 PState.init none none 0 openB_init (.top rfl rfl) (by intro i nd h; simp [PState.init] at h) rfl
       rfl (Or.inl rfl) 0 hnume (ws1 ++ (op :: (ws2 ++ (o :: (wsA ++ (body.toks ++ (wsB ++ [c])))))))
   obtain ⟨st1', hloopW1, hinv', hn1', hgs1', hcg1'⟩ :=
